@@ -4,7 +4,7 @@
    inserted or truncated bytes yields SOME sequence of lines, or an unparsable one, which
    is [LOther]).  MD5 is the abstract function H; the two digest hypotheses are premises. *)
 From Trzsz Require Import Base.Bytes Model.Path Model.Fs Model.Names Model.Transfer Model.Protocol Model.FaultTie Proofs.Protocol Proofs.FaultTie Proofs.FaultTieFs Proofs.FaultTieSender.
-From Trzsz Require Model.Resume Model.FaultResume.
+From Trzsz Require Model.Resume Model.FaultResume Proofs.Resume Proofs.FaultResume.
 From Coq Require Import ZArith.
 
 Section C02.
@@ -15,20 +15,28 @@ Hypothesis deq_spec : forall a b, deq a b = true <-> a = b.
 Variable decode : list (list byte) -> option (list byte).
 Variable decode1 : list byte -> option (list byte).
 
-(* receiver, protocol >= 2.  [early] is the schedule of the receiving pipeline: None = pipelineSaveData's
-   step = size check decides; Some k = pipelineSendAck, which reports completion as soon as the saved
-   step EQUALS the announced size, wins against it (possible when the stream is longer than announced
-   and the saved step passes through the announced size - always for size 0) and k bytes reach the file.
-   Acceptance implies: the stream decodes to w, the MD5 line is the digest of w, and either the file
-   holds w and |w| = size, or the race was won and the file holds the first k bytes of a longer w. *)
+(* receiver, protocol >= 2.  [early] is the schedule of the receiving pipeline (None = pipelineSaveData's
+   step = size check decides; Some k = pipelineSendAck, which reports completion as soon as the saved step
+   EQUALS the announced size, is first and k bytes have reached the file by then).  Since fix d144b66 the
+   ctx.succ branch of recvFileDataV2 waits for the saver's verdict (read from the source:
+   Consts.c02_succ_waits_saver), so the schedule no longer matters: for EVERY schedule, acceptance implies
+   that the stream decodes to exactly what the file holds, has exactly the announced size, and that the
+   MD5 line is its digest. *)
 Variable early : option nat.
-Theorem C02_receiver_sound_v2 : forall ls size acc written,
-  recv_v2 digest H deq decode early size acc ls = Accept written ->
+Theorem C02_receiver_sound_v2 : forall ls size acc w,
+  recv_v2 digest H deq decode early size acc ls = Accept w ->
+  decode (acc ++ frames_of digest ls) = Some w /\ Z.of_nat (length w) = size
+  /\ md5_of digest ls = Some (H w).
+Proof. exact (recv_v2_sound digest H deq deq_spec decode early). Qed.
+
+(* the code before d144b66 ([recv_v2_old]): both outcomes of the race *)
+Theorem C02_receiver_sound_v2_old : forall ls size acc written,
+  recv_v2_old digest H deq decode early size acc ls = Accept written ->
   exists w, decode (acc ++ frames_of digest ls) = Some w /\ md5_of digest ls = Some (H w) /\
     ((written = w /\ Z.of_nat (length w) = size) \/
      (exists k, early = Some k /\ written = firstn k w /\
                 (0 <= size < Z.of_nat (length w))%Z /\ (size <= Z.of_nat k)%Z /\ (k <= length w)%nat)).
-Proof. exact (recv_v2_sound digest H deq deq_spec decode early). Qed.
+Proof. exact (recv_v2_sched_sound digest H deq deq_spec decode early). Qed.
 
 (* receiver, protocol 1: acceptance implies matching digest; the size is only a lower bound
    (the legacy loop does not re-check it) *)
@@ -38,30 +46,28 @@ Theorem C02_receiver_sound_v1 : forall fuel ls size w0 w,
             /\ exists tail, w = w0 ++ tail.
 Proof. exact (recv_v1_sound digest H deq deq_spec decode1). Qed.
 
-(* no silent corruption, protocol >= 2.  The full statement - for every delivered line sequence and
-   every schedule - is FALSE for the faithful model (C02_no_silent_v2_refuted below: a SIZE message
-   that announces less than the stream holds, e.g. 0, and the acknowledger winning: the genuine digest
-   is answered with SUCC while the file holds a prefix).  Proved: when the saver's check decides
-   (C02_no_silent_v2_no_race_partial), and for every schedule when the SIZE message delivered is the
-   true one (C02_no_silent_v2_true_size_partial). *)
-Definition C02_no_silent_v2_full : Prop := forall ls size src w,
+(* no silent corruption, protocol >= 2: for every delivered line sequence AND every schedule.
+   (For the code before d144b66 the statement is false: C02_no_silent_v2_old_refuted below; what held
+   there were the two partial statements C02_no_silent_v2_old_no_race / _old_true_size.) *)
+Theorem C02_no_silent_v2_full : forall ls size src w,
   recv_v2 digest H deq decode early size [] ls = Accept w ->
   (forall d, md5_of digest ls = Some d -> unforged digest H src w d) ->
   collision_free_on digest H src w -> w = src.
+Proof. exact (recv_v2_no_silent digest H deq deq_spec decode early). Qed.
 
-Theorem C02_no_silent_v2_no_race_partial : forall ls size src w,
+Theorem C02_no_silent_v2_old_no_race : forall ls size src w,
   early = None ->
-  recv_v2 digest H deq decode early size [] ls = Accept w ->
+  recv_v2_old digest H deq decode early size [] ls = Accept w ->
   (forall d, md5_of digest ls = Some d -> unforged digest H src w d) ->
   collision_free_on digest H src w -> w = src.
-Proof. exact (recv_v2_no_silent_no_race digest H deq deq_spec decode early). Qed.
+Proof. exact (recv_v2_sched_no_silent_no_race digest H deq deq_spec decode early). Qed.
 
-Theorem C02_no_silent_v2_true_size_partial : forall ls size src written,
+Theorem C02_no_silent_v2_old_true_size : forall ls size src written,
   size = Z.of_nat (length src) ->
-  recv_v2 digest H deq decode early size [] ls = Accept written ->
+  recv_v2_old digest H deq decode early size [] ls = Accept written ->
   (forall w d, decode (frames_of digest ls) = Some w -> md5_of digest ls = Some d -> unforged digest H src w d) ->
   (forall w, decode (frames_of digest ls) = Some w -> collision_free_on digest H src w) -> written = src.
-Proof. exact (recv_v2_no_silent_true_size digest H deq deq_spec decode early). Qed.
+Proof. exact (recv_v2_sched_no_silent_true_size digest H deq deq_spec decode early). Qed.
 
 Theorem C02_no_silent_v1 : forall fuel ls size src w,
   recv_v1 digest H deq decode1 fuel size [] ls = Accept w ->
@@ -159,8 +165,10 @@ End C02.
 
 Print Assumptions C02_receiver_sound_v2.
 Print Assumptions C02_receiver_sound_v1.
-Print Assumptions C02_no_silent_v2_no_race_partial.
-Print Assumptions C02_no_silent_v2_true_size_partial.
+Print Assumptions C02_receiver_sound_v2_old.
+Print Assumptions C02_no_silent_v2_full.
+Print Assumptions C02_no_silent_v2_old_no_race.
+Print Assumptions C02_no_silent_v2_old_true_size.
 Print Assumptions C02_no_silent_v1.
 Print Assumptions C02_sender_sound.
 Print Assumptions C02_sender_final.
@@ -227,30 +235,42 @@ Example C02_transfer_v1_overshoot :
 Proof. vm_compute. reflexivity. Qed.
 
 (* ------------------------------------------------------------------------------------------
-   The resume exchange (protocol >= 3, overwrite onto a non-empty destination) is NOT covered by
-   C02_transfer_no_silent: the machine of Model/Transfer.v stops in RpUnmodelled there.  The full
-   statement - whatever answers of the hash exchange are delivered to the sender, a file whose data
-   phase the receiver accepts ends identical to the source - is FALSE for the faithful model
-   (Model/Resume.v, Model/FaultResume.v): the digest and the size of the data phase cover only what
-   is transmitted, not the kept prefix, and the two ends never compare the offsets they chose. *)
-Definition C02_resume_full : Prop :=
+   The resume exchange (protocol >= 3, overwrite onto a non-empty destination) is not part of the machine
+   of Model/Transfer.v (RpUnmodelled); its model is Model/Resume.v (C08) and, with an ARBITRARY list of
+   answers delivered to the sender, Model/FaultResume.v.  The digest and the size of the data phase cover
+   only what is transmitted, not the kept prefix; what keeps the two ends from continuing at different
+   offsets is the receiver-side check of fix 75b62fe (announced size = source size - the receiver's own
+   offset; read from the source: Consts.c02_resume_rest_check).  With it: whatever answers are delivered,
+   a completed exchange leaves both ends at the same offset and the destination identical to the source
+   (collision-freeness on the compared prefixes, as in C08).
+   Scope: the answers (receiver -> sender) are arbitrary; the HASH records and, for protocol 3, the SIZE
+   line in front of them are taken as sent (a forged HASH record is the digest hypothesis of C08 again). *)
+Theorem C02_resume_full :
   forall (B : N) (Hh : list byte -> Resume.digest) (src dst : list byte) (delivered : list Resume.ack) o,
     (0 < B)%N ->
-    (forall x y, Hh x = Hh y -> x = y) ->                      (* even for a collision-free digest *)
+    Proofs.Resume.collision_free Hh src dst ->
     FaultResume.fr_run B Hh src dst delivered = Some o ->
-    (* the data phase as the sender produces it for what it transmits is accepted by the receiver *)
-    recv_v2 Resume.digest Hh list_eqb (fun fs => Some (concat fs)) None (Z.of_nat (length (FaultResume.fo_sent o))) []
-      [LData _ (FaultResume.fo_sent o); LData _ []; LMd5 _ (Hh (FaultResume.fo_sent o))] = Accept (FaultResume.fo_sent o) ->
-    FaultResume.fo_final o = src.
+    FaultResume.fo_mrecv o = FaultResume.fo_msend o /\ FaultResume.fo_final o = src.
+Proof. intros B Hh src dst delivered o HB. exact (Proofs.FaultResume.fr_run_identical B Hh HB src dst delivered o). Qed.
+Print Assumptions C02_resume_full.
 
-(* witness: block size 2, source 1 2 3 4 5, destination 1 2 9 9 (first block equal, second different);
-   the receiver answers (2, match) (4, no match); the FIRST answer is lost on the way: the sender
-   restarts from 0, the receiver keeps 2 bytes and appends: 1 2 1 2 3 4 5 is reported as saved *)
-Theorem C02_resume_refuted :
+(* the lost answer of the old witness is now an error (nothing is reported as saved) *)
+Example C02_resume_lost_answer_refused :
+  FaultResume.fr_run 2%N (fun x => x) [1; 2; 3; 4; 5] [1; 2; 9; 9]
+    (tl (FaultResume.fr_answers 2%N (fun x => x) [1; 2; 3; 4; 5] [1; 2; 9; 9])) = None /\
+  exists o, FaultResume.fr_run 2%N (fun x => x) [1; 2; 3; 4; 5] [1; 2; 9; 9]
+              (FaultResume.fr_answers 2%N (fun x => x) [1; 2; 3; 4; 5] [1; 2; 9; 9]) = Some o /\
+            FaultResume.fo_final o = [1; 2; 3; 4; 5].
+Proof. split; [vm_compute; reflexivity | eexists; split; vm_compute; reflexivity]. Qed.
+
+(* the code before 75b62fe ([fr_run_old]): block size 2, source 1 2 3 4 5, destination 1 2 9 9; the
+   receiver answers (2, match) (4, no match); the FIRST answer is lost on the way: the sender restarts
+   from 0, the receiver keeps 2 bytes and appends: 1 2 1 2 3 4 5 was reported as saved *)
+Theorem C02_resume_old_refuted :
   exists (B : N) (Hh : list byte -> Resume.digest) (src dst : list byte) (delivered : list Resume.ack) o,
     (0 < B)%N /\ (forall x y, Hh x = Hh y -> x = y) /\
     delivered = tl (FaultResume.fr_answers B Hh src dst) /\      (* one whole line dropped *)
-    FaultResume.fr_run B Hh src dst delivered = Some o /\
+    FaultResume.fr_run_old B Hh src dst delivered = Some o /\
     recv_v2 Resume.digest Hh list_eqb (fun fs => Some (concat fs)) None (Z.of_nat (length (FaultResume.fo_sent o))) []
       [LData _ (FaultResume.fo_sent o); LData _ []; LMd5 _ (Hh (FaultResume.fo_sent o))] = Accept (FaultResume.fo_sent o) /\
     FaultResume.fo_mrecv o <> FaultResume.fo_msend o /\
@@ -261,14 +281,7 @@ Proof.
   split; [reflexivity|]. split; [auto|]. split; [vm_compute; reflexivity|]. split; [vm_compute; reflexivity|].
   split; [vm_compute; reflexivity|]. split; [discriminate | discriminate].
 Qed.
-
-Theorem C02_resume_full_refuted : ~ C02_resume_full.
-Proof.
-  intro F. destruct C02_resume_refuted as (B & Hh & src & dst & dl & o & Hb & Hi & _ & R & A & _ & N).
-  exact (N (F B Hh src dst dl o Hb Hi R A)).
-Qed.
-Print Assumptions C02_resume_refuted.
-Print Assumptions C02_resume_full_refuted.
+Print Assumptions C02_resume_old_refuted.
 
 (* the sender bridge is not vacuous: protocol 2, one file of 3 bytes sent as frames of 2 and 1 bytes *)
 Example C02_transfer_sender_nonvacuous :
@@ -282,28 +295,22 @@ Example C02_transfer_sender_nonvacuous :
 Proof. vm_compute. reflexivity. Qed.
 
 (* ------------------------------------------------------------------------------------------
-   The race of the size check (protocol >= 2): witness for the refutation of C02_no_silent_v2_full.
-   Digest = the content itself (collision-free, and the MD5 message is the GENUINE one of the source
-   [1]); the SIZE message delivered says 0; the acknowledger wins before a byte is saved: the
-   receiver answers SUCC, the file is empty. *)
-Theorem C02_no_silent_v2_refuted :
+   The race of the size check in the code before d144b66 ([recv_v2_old]).  Digest = the content itself
+   (collision-free, and the MD5 message is the GENUINE one of the source [1]); the SIZE message delivered
+   says 0; the acknowledger wins before a byte is saved: the receiver answered SUCC, the file was empty.
+   The same lines are refused by [recv_v2] under every schedule. *)
+Theorem C02_no_silent_v2_old_refuted :
   exists (early : option nat) (ls : list (line (list byte))) (size : Z) (src w : list byte),
-    recv_v2 (list byte) (fun x => x) list_eqb (fun fs => Some (concat fs)) early size [] ls = Accept w /\
+    recv_v2_old (list byte) (fun x => x) list_eqb (fun fs => Some (concat fs)) early size [] ls = Accept w /\
     (forall d, md5_of (list byte) ls = Some d -> unforged (list byte) (fun x => x) src w d) /\
     collision_free_on (list byte) (fun x => x) src w /\
     md5_of (list byte) ls = Some src /\                 (* the digest delivered is the source's *)
-    w <> src.
+    w <> src /\
+    recv_v2 (list byte) (fun x => x) list_eqb (fun fs => Some (concat fs)) early size [] ls = Reject.
 Proof.
   exists (Some 0%nat), [LData _ [1]; LData _ []; LMd5 _ [1]], 0%Z, [1], [].
-  split; [vm_compute; reflexivity|]. split; [|split; [|split; [reflexivity | discriminate]]].
+  split; [vm_compute; reflexivity|]. split; [|split; [|split; [reflexivity | split; [discriminate | vm_compute; reflexivity]]]].
   - intros d M. cbn in M. inversion M; subst d. unfold unforged. discriminate.
   - unfold collision_free_on. discriminate.
 Qed.
-Print Assumptions C02_no_silent_v2_refuted.
-Theorem C02_no_silent_v2_full_refuted :
-  ~ (forall digest H deq decode early, C02_no_silent_v2_full digest H deq decode early).
-Proof.
-  intro F. destruct C02_no_silent_v2_refuted as (early & ls & size & src & w & A & U & C & _ & N).
-  exact (N (F _ _ _ _ early ls size src w A U C)).
-Qed.
-Print Assumptions C02_no_silent_v2_full_refuted.
+Print Assumptions C02_no_silent_v2_old_refuted.
